@@ -1,11 +1,238 @@
-(* C09 — property theorems only. *)
+(* C09 — Bump allocator hands out in-bounds, aligned, disjoint blocks or NULL.   Property theorems only.
+
+   Model   : BumpModel.v  (zix_bump_allocator / malloc / calloc / realloc / free / aligned_alloc /
+             aligned_free of /repo/src/bump_allocator.c as it is now, 64-bit wrap written out,
+             assert()s as the outcome RAbort).
+   Caller  : BumpSpec.sys_run  (keeps the shadow list of live blocks, passes the addresses it was
+             given, never passes a pointer to a block that is not live, frees in any order).
+   Spec    : BumpSpec.spec_check  (a checker of observed traces: shadow list + frontier; it never
+             mentions top/last or any wrap-around).  The same extracted function judges the real
+             allocator's responses in the correspondence check.
+   A = buffer address, C = capacity;  0 < A and A + C < 2^64 hold for every real buffer. *)
 From Coq Require Import ZArith List Bool.
-From Zix Require Import BumpModel BumpSpec BumpProofs.
+From Zix Require Import BumpModel BumpSpec BumpProofs BumpProofsSafe BumpProofsMore.
 Import ListNotations.
 Local Open Scope Z_scope.
 
-(* the first block offset is the first aligned address of the buffer, whatever its address *)
+(* ------------------------------------------------------------------------------------------ *)
+(* MAIN THEOREM.  For every buffer address, every capacity, every initial memory and every list of
+   requests (any sizes; once a request violates the documented preconditions nothing more is
+   claimed), the trace produced by the model is accepted by the specification: every successful
+   block is inside [0, C), at least as large as requested, aligned to 8 (and to the requested
+   alignment), apart from every live block; calloc blocks are zero; realloc succeeds exactly for
+   the most recent live block when the resized block fits, in place; free of the most recent block
+   moves the frontier back to its offset; a request fails exactly when the aligned, rounded block
+   does not fit in C - frontier, returning NULL and changing nothing; no assertion fires. *)
+Theorem bump_safe :
+  forall A C m0 rs, 0 < A -> 0 <= C -> A + C < 2 ^ 64 ->
+    spec_check A C (trace_of (bump_run A C m0 rs)) = true.
+Proof. exact bump_safe_all. Qed.
+Print Assumptions bump_safe.
+
+(* with all preconditions met the whole history is executed: no assert() ever fires *)
+Theorem bump_never_aborts :
+  forall A C m0 rs, 0 < A -> 0 <= C -> A + C < 2 ^ 64 -> forallb req_ok rs = true ->
+    length (bump_run A C m0 rs) = length rs /\
+    Forall (fun e => e_resp e <> OAbort) (bump_run A C m0 rs).
+Proof.
+  intros A C m0 rs HA HC HAC Hok.
+  exact (run_complete A C HA HC HAC rs 0%nat (sys_init A m0) (spec_init A) (Inv_init A C m0) Hok).
+Qed.
+Print Assumptions bump_never_aborts.
+
+(* ------------------------------------------------------------------------------------------ *)
+(* What "accepted by the specification" means, clause by clause (soundness of the checker). *)
+
+(* a successful malloc / calloc / aligned_alloc (al = 8 for the first two) *)
+Theorem spec_accepted_allocation_means :
+  forall A C id sp al n off sp',
+    spec_alloc A C id sp al n (OPtr off) = Some sp' ->
+    0 <= off /\ off + Z.max n 1 <= C /\                       (* wholly inside the buffer, >= n bytes *)
+    (A + off) mod 8 = 0 /\ (A + off) mod al = 0 /\              (* address aligned *)
+    (forall b, In b (sp_live sp) ->                             (* overlaps no live block *)
+       apart off (Z.max n 1) (b_off b) (Z.max (b_size b) 1)) /\
+    sp_front sp + (- (A + sp_front sp)) mod al + rounded n <= C /\      (* it did fit *)
+    sp_live sp' = {| b_id := id; b_off := off; b_size := n |} :: sp_live sp /\
+    sp_front sp' = off + rounded n /\ sp_recent sp' = Some id.
+Proof. exact spec_alloc_ptr. Qed.
+Print Assumptions spec_accepted_allocation_means.
+
+(* a failed allocation: only when the aligned, rounded block does not fit; nothing changes *)
+Theorem spec_accepted_failure_means :
+  forall A C id sp al n sp',
+    spec_alloc A C id sp al n ONull = Some sp' ->
+    C < sp_front sp + (- (A + sp_front sp)) mod al + rounded n /\ sp' = sp.
+Proof. exact spec_alloc_null. Qed.
+Print Assumptions spec_accepted_failure_means.
+
+Theorem spec_accepted_realloc_means :
+  forall A C id sp i n off z sp',
+    spec_step A C id sp (Realloc (PBlk i) n) (OPtr off) z = Some sp' ->
+    exists b, find_blk i (sp_live sp) = Some b /\ sp_recent sp = Some i /\    (* the most recent block *)
+              off = b_off b /\                                                  (* not moved *)
+              b_off b + rounded n <= C /\
+              (forall b', In b' (sp_live sp) -> b_id b' <> i ->
+                 apart off (Z.max n 1) (b_off b') (Z.max (b_size b') 1)) /\
+              sp_live sp' = resize_blk i n (sp_live sp) /\ sp_front sp' = b_off b + rounded n.
+Proof. exact spec_realloc_ptr. Qed.
+Print Assumptions spec_accepted_realloc_means.
+
+Theorem spec_accepted_realloc_failure_means :
+  forall A C id sp i n z sp' b,
+    find_blk i (sp_live sp) = Some b ->
+    spec_step A C id sp (Realloc (PBlk i) n) ONull z = Some sp' ->
+    (sp_recent sp <> Some i \/ C < b_off b + rounded n) /\ sp' = sp.
+Proof. exact spec_realloc_null. Qed.
+Print Assumptions spec_accepted_realloc_failure_means.
+
+Theorem spec_accepted_free_of_most_recent_means :
+  forall sp i o sp' b,
+    find_blk i (sp_live sp) = Some b -> sp_recent sp = Some i ->
+    spec_free sp (PBlk i) o = Some sp' ->
+    o = OVoid /\ sp_front sp' = b_off b /\ sp_live sp' = remove_blk i (sp_live sp).
+Proof. exact spec_free_recent. Qed.
+Print Assumptions spec_accepted_free_of_most_recent_means.
+
+(* ------------------------------------------------------------------------------------------ *)
+(* The same facts stated directly about the model functions. *)
+
+(* any buffer address: the first offset is the first 8-aligned address of the buffer *)
 Theorem bump_init_first_aligned_offset :
-  forall A, 0 <= top (bump_init A) < 8 /\ (A + top (bump_init A)) mod 8 = 0 /\ last (bump_init A) = top (bump_init A).
-Proof. intros A. destruct (bump_init_aligned A) as [H1 H2]. repeat split; try apply H1; exact H2. Qed.
+  forall A, 0 <= top (bump_init A) < 8 /\ (A + top (bump_init A)) mod 8 = 0 /\
+            last (bump_init A) = top (bump_init A).
+Proof.
+  intros A. destruct (bump_init_aligned A) as [H1 H2]. destruct (bump_init_spec A) as [Et El].
+  split; [exact H1|]. split; [exact H2 | congruence].
+Qed.
 Print Assumptions bump_init_first_aligned_offset.
+
+(* exact outcome of every allocating call in a state with top aligned: success iff the rounded
+   (and, for aligned_alloc, padded) block fits in C - top; all 64-bit wrap-around is harmless *)
+Theorem bump_malloc_exact :
+  forall A C s n, 0 < A -> 0 <= C -> A + C < 2 ^ 64 -> st_ok A C s -> 0 <= n < 2 ^ 64 ->
+    bump_malloc A C s n =
+      if top s + rounded n <=? C
+      then ({| top := top s + rounded n; last := top s |}, RPtr (A + top s))
+      else (s, RNull).
+Proof. exact bump_malloc_char. Qed.
+Print Assumptions bump_malloc_exact.
+
+Theorem bump_calloc_exact :
+  forall A C s m a b, 0 < A -> 0 <= C -> A + C < 2 ^ 64 -> st_ok A C s -> 0 <= a < 2 ^ 64 -> 0 <= b < 2 ^ 64 ->
+    bump_calloc A C s m a b =
+      if top s + rounded (a * b) <=? C
+      then ({| top := top s + rounded (a * b); last := top s |}, memset0 m (A + top s) (a * b), RPtr (A + top s))
+      else (s, m, RNull).
+Proof. exact bump_calloc_char. Qed.
+Print Assumptions bump_calloc_exact.
+
+Theorem bump_realloc_exact :
+  forall A C s p n, 0 <= C < 2 ^ 64 -> 0 <= last s -> 0 <= n < 2 ^ 64 ->
+    bump_realloc A C s p n =
+      if (p =? wrap (A + last s)) && (last s + rounded n <=? C)
+      then ({| top := last s + rounded n; last := last s |}, RPtr p)
+      else (s, RNull).
+Proof. exact bump_realloc_char. Qed.
+Print Assumptions bump_realloc_exact.
+
+Theorem bump_aligned_alloc_exact :
+  forall A C s al n, 0 < A -> 0 <= C -> A + C < 2 ^ 64 -> st_ok A C s -> 0 <= n < 2 ^ 64 ->
+    align_ok al n = true ->            (* power of two, 8 <= al < 2^64, al divides n: the code's assert()s *)
+    let pad := (- (A + top s)) mod al in
+    bump_aligned_alloc A C s al n =
+      if top s + pad + rounded n <=? C
+      then ({| top := top s + pad + rounded n; last := top s + pad |}, RPtr (A + top s + pad))
+      else (s, RNull).
+Proof. exact bump_aligned_alloc_char. Qed.
+Print Assumptions bump_aligned_alloc_exact.
+
+(* a failed request returns NULL and changes nothing — in ANY state, for ANY arguments *)
+Theorem bump_failed_request_changes_nothing :
+  (forall A C s n s', bump_malloc A C s n = (s', RNull) -> s' = s) /\
+  (forall A C s m a b s' m', bump_calloc A C s m a b = (s', m', RNull) -> s' = s /\ m' = m) /\
+  (forall A C s p n s', bump_realloc A C s p n = (s', RNull) -> s' = s) /\
+  (forall A C s al n s', bump_aligned_alloc A C s al n = (s', RNull) -> s' = s).
+Proof.
+  repeat split.
+  - exact bump_malloc_null.
+  - eapply bump_calloc_null; eauto.
+  - eapply bump_calloc_null; eauto.
+  - exact bump_realloc_null.
+  - exact bump_aligned_alloc_null.
+Qed.
+Print Assumptions bump_failed_request_changes_nothing.
+
+(* realloc succeeds only for the block at `last` and returns the very same address *)
+Theorem bump_realloc_in_place_last_only :
+  forall A C s p n s' q,
+    bump_realloc A C s p n = (s', RPtr q) -> q = p /\ p = wrap (A + last s) /\ last s' = last s.
+Proof. exact bump_realloc_ptr. Qed.
+Print Assumptions bump_realloc_in_place_last_only.
+
+(* freeing the most recent block puts top back to where the block starts *)
+Theorem bump_free_most_recent_restores_top :
+  (forall A C s n s1 p, bump_malloc A C s n = (s1, RPtr p) ->
+     bump_free A s1 p = {| top := top s; last := top s |}) /\
+  (forall A C s al n s1 p, bump_aligned_alloc A C s al n = (s1, RPtr p) ->
+     p = wrap (A + last s1) /\ bump_aligned_free A s1 p = {| top := last s1; last := last s1 |}).
+Proof. split; [exact bump_malloc_then_free | exact bump_aligned_alloc_then_free]. Qed.
+Print Assumptions bump_free_most_recent_restores_top.
+
+(* calloc: all nmemb*size bytes of the block are zero, no other byte of memory is written *)
+Theorem bump_calloc_zero_and_frame :
+  forall A C s m a b s' m' p, 0 <= a -> 0 <= b ->
+    bump_calloc A C s m a b = (s', m', RPtr p) ->
+    (forall i, 0 <= i < a * b -> m' (p + i) = 0) /\
+    (forall x, ~ (p <= x < p + a * b) -> m' x = m x).
+Proof. exact bump_calloc_memory. Qed.
+Print Assumptions bump_calloc_zero_and_frame.
+
+(* ------------------------------------------------------------------------------------------ *)
+(* Why each fix: commit was needed: the code as it was violates the property (witnesses replayed
+   on the real code in corpus/C09.txt). *)
+Theorem bump_init_old_misaligned_refuted : exists A, 0 < A /\ (A + top (bump_init_old A)) mod 8 <> 0.
+Proof. exact bump_init_old_refuted. Qed.
+Print Assumptions bump_init_old_misaligned_refuted.
+
+Theorem bump_malloc_old_overflow_refuted :
+  bump_malloc_old 4096 64 {| top := 0; last := 0 |} (2 ^ 64 - 1) = ({| top := 0; last := 0 |}, RPtr 4096) /\
+  bump_malloc_old 4096 64 {| top := 32; last := 0 |} (2 ^ 64 - 21) = ({| top := 16; last := 32 |}, RPtr 4128) /\
+  bump_calloc_old 4096 64 {| top := 8; last := 0 |} (2 ^ 63) 2 = ({| top := 8; last := 8 |}, RPtr 4104).
+Proof. exact bump_malloc_old_refuted. Qed.
+Print Assumptions bump_malloc_old_overflow_refuted.
+
+Theorem bump_realloc_old_unrounded_refuted :
+  bump_realloc_old 4096 64 {| top := 8; last := 0 |} 4096 13 = ({| top := 13; last := 0 |}, RPtr 4096) /\
+  bump_realloc_old 4096 64 {| top := 16; last := 8 |} 4104 (2 ^ 64 - 8) = ({| top := 0; last := 8 |}, RPtr 4104).
+Proof. exact bump_realloc_old_refuted. Qed.
+Print Assumptions bump_realloc_old_unrounded_refuted.
+
+Theorem bump_zero_size_old_aliasing_refuted :
+  exists s1 s2 p, bump_malloc_old 4096 64 {| top := 0; last := 0 |} 0 = (s1, RPtr p) /\
+                  bump_malloc_old 4096 64 s1 8 = (s2, RPtr p).
+Proof. exact bump_zero_size_old_refuted. Qed.
+Print Assumptions bump_zero_size_old_aliasing_refuted.
+
+(* ------------------------------------------------------------------------------------------ *)
+(* Non-vacuity: a history on an odd buffer address with every kind of request ... *)
+Example bump_example_history :
+  map e_resp (bump_run 4099 64 (fun _ => 165)
+                [Malloc 8; Calloc 2 4; Realloc (PBlk 1) 13; Realloc (PBlk 0) 8; Free (PBlk 0); Malloc 0;
+                 AlignedAlloc 16 16; Free (PBlk 6); Malloc 100; Free (PBlk 1); Realloc PNull 8]) =
+  [OPtr 5; OPtr 13; OPtr 13; ONull; OVoid; OPtr 29; OPtr 45; OVoid; ONull; OVoid; ONull].
+Proof. vm_compute. reflexivity. Qed.
+
+(* ... and the specification is not trivially true: it rejects overlapping blocks, a misaligned
+   block, a block sticking out of the buffer, a spurious failure, a moved realloc, a zero-size
+   block sharing its address, and dirty calloc memory *)
+Example spec_rejects_bad_traces :
+  spec_check 4096 64 [(Malloc 8, OPtr 0, true); (Malloc 8, OPtr 4, true)] = false /\
+  spec_check 4097 64 [(Malloc 8, OPtr 1, true)] = false /\
+  spec_check 4096 64 [(Malloc 60, OPtr 8, true)] = false /\
+  spec_check 4096 64 [(Malloc 64, ONull, true)] = false /\
+  spec_check 4096 64 [(Malloc 8, OPtr 0, true); (Realloc (PBlk 0) 16, OPtr 8, true)] = false /\
+  spec_check 4096 64 [(Malloc 0, OPtr 0, true); (Malloc 8, OPtr 0, true)] = false /\
+  spec_check 4096 64 [(Calloc 1 8, OPtr 0, false)] = false /\
+  spec_check 4096 64 [(Malloc 8, OPtr 0, true); (Malloc 8, OPtr 8, true); (Free (PBlk 1), OVoid, true);
+                      (Malloc 48, ONull, true)] = false.
+Proof. vm_compute. repeat split. Qed.
